@@ -218,6 +218,15 @@ class AddonMainTask(AddonAsync, metaclass=abc.ABCMeta):
         self._mtask = self._create_monitored_task(
             self._maintask(), is_service=True, name=f"edzed: main task for block {self.name!r}")
 
+    def stop(self) -> None:
+        # stop_async() is not called when disabled by stop_timeout <= 0,
+        # the task must not be left running
+        if self._mtask is not None:
+            self._mtask.cancel()
+        # super() refers to an SBlock, pylint cannot know that
+        # pylint: disable=no-member
+        super().stop()
+
     async def stop_async(self) -> None:
         assert self._mtask is not None, f"{self}: start() not called"
         self._mtask.cancel()
